@@ -9,6 +9,8 @@
 //	arrive:<m>:<prog>   the peer sends request m; its handler runs prog = steps joined by '+':
 //	                      r      return
 //	                      g<k>   nested blocking cc.Do (GET /n, token of exchange k, 30 s deadline)
+//	                      n<k>   the same with a non-confirmable request (datagram: no wait for an ACK, one hand-over only)
+//	                      s<ms>  the handler itself takes <ms> (time.Sleep: it blocks without touching the connection)
 //	                      h<k>   the same on path /h<k> (its own endpoint)
 //	                      o<k>   nested cc.DoObserve (20 s deadline)
 //	                      p      nested cc.Ping (10 s deadline)
@@ -68,19 +70,19 @@ type conn interface {
 }
 
 type world struct {
-	mu      sync.Mutex
-	udp     bool
-	cc      conn
-	observe func(req *pool.Message) error
-	events  []string
-	progs   map[string]string // request token hex -> handler program
-	sent    func() []sentMsg
-	last    map[string]sentMsg
+	mu       sync.Mutex
+	udp      bool
+	cc       conn
+	observe  func(req *pool.Message) error
+	events   []string
+	progs    map[string]string // request token hex -> handler program
+	sent     func() []sentMsg
+	last     map[string]sentMsg
 	lastPing sentMsg
-	feed    chan []byte
-	fed     int
-	handed  int
-	nextMid int32
+	feed     chan []byte
+	fed      int
+	handed   int
+	nextMid  int32
 }
 
 type sentMsg struct {
@@ -120,7 +122,10 @@ func (w *world) runProg(prog string) {
 	for _, st := range strings.Split(prog, "+") {
 		switch {
 		case st == "r" || st == "":
-		case st[0] == 'g' || st[0] == 'h' || st[0] == 'o':
+		case st[0] == 's':
+			ms, _ := strconv.Atoi(st[1:])
+			time.Sleep(time.Duration(ms) * time.Millisecond)
+		case st[0] == 'g' || st[0] == 'h' || st[0] == 'o' || st[0] == 'n':
 			k, _ := strconv.Atoi(st[1:])
 			to := 30 * time.Second
 			if st[0] == 'o' {
@@ -131,6 +136,9 @@ func (w *world) runProg(prog string) {
 			req := w.cc.AcquireMessage(ctx)
 			req.SetCode(codes.GET)
 			req.SetToken(nestTok(k))
+			if st[0] == 'n' && w.udp {
+				req.SetType(message.NonConfirmable)
+			}
 			if st[0] == 'h' {
 				_ = req.SetPath("/h" + st[1:])
 			} else {
